@@ -24,6 +24,7 @@ import Upnp.Lemmas.C12Yield
 import Upnp.Lemmas.C12Lapse
 import Upnp.Lemmas.C12Zeno
 import Upnp.Lemmas.C12C09
+import Upnp.Lemmas.C12Sound
 import Upnp.Spec.C12
 namespace Upnp.C12
 open Upnp PyDict
@@ -107,7 +108,9 @@ example :
   decide
 
 /-- **all_or_nothing_trace** (the judge's "all or nothing" clause, whole-trace form): for every number of
-    services, publisher script and sequence of caller operations, the clause monitor `aonMon` of the
+    services, publisher script and sequence of caller operations (a `sub` issued while something is subscribed or a
+    renewal task is alive is a no-op of the model — manual re-subscription is not modelled — so "every subscribe
+    call in the history" means every FIRST subscription of a session), the clause monitor `aonMon` of the
     run-time judge, run over the model's complete trace, flags nothing — every subscribe call in the history
     ends in a snapshot satisfying `subOkPost` / `subFailPost` for exactly the requests of that call. -/
 theorem all_or_nothing_trace (n : Nat) (script : List Entry) (dflt : Entry) (ops : List Op) :
@@ -279,11 +282,12 @@ example :
 /-- nothing is subscribed and no task exists -/
 def Quiet (st : St) : Prop := st.subs = [] ∧ st.task = .none ∧ st.halted = false
 
-/-- **no further requests**: once unsubscribed, waiting (any duration) and unsubscribing again send
-    nothing — the trace grows by events none of which is a request — until the caller subscribes again -/
+/-- **no further requests (and no late callback)**: once unsubscribed, waiting (any duration) and unsubscribing
+    again send nothing and report nothing — the trace grows by events none of which is a request or an event
+    callback — until the caller subscribes again -/
 theorem quiet_after_unsubscribe (cfg : Cfg) (n : Nat) (st : St) (hq : Quiet st) (op : Op)
     (hop : ∀ a, op ≠ .sub a) :
-    Quiet (step cfg n st op) ∧ ∃ evs, (step cfg n st op).rtrace = evs ++ st.rtrace ∧ ∀ e ∈ evs, e.isReq = false := by
+    Quiet (step cfg n st op) ∧ ∃ evs, (step cfg n st op).rtrace = evs ++ st.rtrace ∧ ∀ e ∈ evs, e.isReq = false ∧ e.isCb = false := by
   obtain ⟨hs, htk, hh⟩ := hq
   cases op with
   | sub a => exact absurd rfl (hop a)
@@ -298,18 +302,18 @@ theorem quiet_after_unsubscribe (cfg : Cfg) (n : Nat) (st : St) (hq : Quiet st) 
     · simpa [St.snap, St.emit] using hs
     · simp [St.snap, St.emit]
     · simp [St.snap, St.emit, hh]
-    · simp [Ev.isReq]
+    · simp [Ev.isReq, Ev.isCb]
   | unsub =>
     simp only [step, doUnsub, hh, Bool.false_eq_true, if_false, settle, St.emit, htk, unsubscribeServices, hs, keys,
       List.map_nil, unsubAll, St.snap]
     refine ⟨⟨rfl, rfl, ?_⟩, [_, _, _], rfl, ?_⟩
     · simp [hh]
-    · simp [Ev.isReq]
+    · simp [Ev.isReq, Ev.isCb]
 
 /-- the state after `clean_unsubscribe` is `Quiet`, so both theorems chain: after unsubscribing returns no
     further request is sent for any continuation of waits and unsubscribes -/
 theorem quiet_run (cfg : Cfg) (n : Nat) (ops : List Op) (hops : ∀ op ∈ ops, ∀ a, op ≠ .sub a) :
-    ∀ st, Quiet st → ∃ evs, (ops.foldl (step cfg n) st).rtrace = evs ++ st.rtrace ∧ ∀ e ∈ evs, e.isReq = false := by
+    ∀ st, Quiet st → ∃ evs, (ops.foldl (step cfg n) st).rtrace = evs ++ st.rtrace ∧ ∀ e ∈ evs, e.isReq = false ∧ e.isCb = false := by
   induction ops with
   | nil => intro st _; exact ⟨[], rfl, by simp⟩
   | cons op r ih =>
@@ -836,5 +840,90 @@ theorem all_or_nothing_composed (f : Sid → C09.Str) (hinj : ∀ a b, f a = f b
       · show mapRt f (unsubscribeServices S).routed = []
         rw [hu.2.1]; rfl
       · rw [← href, hu.2.1]; rfl
+
+/-! ### judge soundness: what an accepted trace says, in plain terms
+
+The theorems above show that the run-time judge accepts every model trace.  These show the converse direction of
+meaning: whatever trace the judge accepts — the implementation's in particular; no model is involved — satisfies the
+first-order reading of the clause.  (`tr` is any list of events.) -/
+
+/-- **judge_sound_all_or_nothing** ("subscribes all and only its profile's services or, if any fails, leaves none
+    subscribed and raises"): in a trace accepted by `ok`, for every subscribe call — its call event, the requests
+    `reqs` made during it, its return and the snapshot after it —
+    * if it returned normally: every profile service `0 .. n-1` received a SUBSCRIBE, every SUBSCRIBE went to a
+      profile service and there were exactly `n` (so none elsewhere, none twice), all were accepted, nothing was
+      unsubscribed, the bookkeeping holds exactly the granted SIDs and all of them are routed;
+    * if it raised: some SUBSCRIBE was not accepted, the bookkeeping is empty, no renewal task is left, and every SID
+      granted during the call is not routed and was sent an UNSUBSCRIBE. -/
+theorem judge_sound_all_or_nothing (n tolSecs subT : Nat) (tr pre post : List Ev) (t t' t'' : Time) (a a' : Bool)
+    (reqs : List Req) (res : Res) (subs routed : List Sid) (task av : Bool)
+    (h : ok n tolSecs subT tr = true)
+    (htr : tr = pre ++ .call t (.sub a) :: ((reqs.map Ev.req) ++ .ret t' (.sub a') res :: .snap t'' subs routed task av :: post)) :
+    (res = none →
+        (∀ i, i < n → ∃ r ∈ reqs, r.kind = .sub ∧ r.svc = i)
+        ∧ (∀ r ∈ reqs, r.kind = .sub → r.svc < n ∧ r.reac.accepts = true)
+        ∧ (reqs.filter (·.kind == .sub)).length = n
+        ∧ (∀ r ∈ reqs, r.kind ≠ .unsub)
+        ∧ subs.length = n
+        ∧ (∀ g, g ∈ subs ↔ ∃ r ∈ reqs, r.kind = .sub ∧ r.granted = some g)
+        ∧ (∀ r ∈ reqs, r.kind = .sub → ∀ g, r.granted = some g → g ∈ routed))
+    ∧ (res ≠ none →
+        (∃ r ∈ reqs, r.kind = .sub ∧ r.reac.accepts = false)
+        ∧ (∀ r ∈ reqs, r.kind = .sub → r.svc < n)
+        ∧ subs = [] ∧ task = false
+        ∧ (∀ r ∈ reqs, r.kind = .sub → ∀ g, r.granted = some g →
+            g ∉ routed ∧ ∃ u ∈ reqs, u.kind = .unsub ∧ u.sid = some g)) := by
+  have hs := aon_sound n tr pre post t t' t'' a a' reqs res subs routed task av (ok_parts n tolSecs subT tr h).1 htr
+  exact ⟨fun hr => subOkPost_decl n reqs subs routed (hs.1 hr), fun hr => subFailPost_decl n reqs subs routed task (hs.2 hr)⟩
+
+/-- **judge_sound_clean** ("after unsubscribing returns no SID of that profile is still routed, the renewal task has
+    ended and no further requests are sent"): in a trace accepted by `ok`, the snapshot after every returned
+    unsubscribe shows an empty bookkeeping, no task, and no SID granted earlier in the trace routed; and any request
+    after that return is preceded by a new subscribe call. -/
+theorem judge_sound_clean (n tolSecs subT : Nat) (tr : List Ev) (h : ok n tolSecs subT tr = true) :
+    (∀ pre post t t' res subs routed task av,
+        tr = pre ++ .ret t .unsub res :: .snap t' subs routed task av :: post →
+        subs = [] ∧ task = false ∧ ∀ r g, Ev.req r ∈ pre → r.granted = some g → g ∉ routed)
+    ∧ (∀ pre mid post t res r, tr = pre ++ .ret t .unsub res :: (mid ++ .req r :: post) →
+        ∃ e ∈ mid, ∃ t' a, e = .call t' (.sub a)) := by
+  have hc := (ok_parts n tolSecs subT tr h).2.2.2.1
+  exact ⟨fun pre post t t' res subs routed task av htr => clean_sound tr pre post t t' res subs routed task av hc htr,
+    fun pre mid post t res r htr => clean_sound_quiet tr pre mid post t res r hc htr⟩
+
+/-- **judge_sound_lapse** ("every subscription is renewed before the publisher would expire it for as long as the
+    publisher accepts renewals"): in a trace accepted by `ok`, a renewal request sent while auto-renewal is in force
+    and the history so far is calm arrives no later than the publisher's expiry of its SID, and at every snapshot
+    taken under the same conditions nothing in the publisher's table has expired. -/
+theorem judge_sound_lapse (n tolSecs subT : Nat) (tr : List Ev) (h : ok n tolSecs subT tr = true) :
+    (∀ pre post r s e, tr = pre ++ .req r :: post → r.kind = .renew → r.sid = some s →
+        (lapseMon n tolSecs subT pre).auto = true → (lapseMon n tolSecs subT pre).calm = true →
+        get? (lapseMon n tolSecs subT pre).expiry s = some (some e) → r.t ≤ e)
+    ∧ (∀ pre post t a b c d, tr = pre ++ .snap t a b c d :: post →
+        (lapseMon n tolSecs subT pre).auto = true → (lapseMon n tolSecs subT pre).calm = true →
+        ∀ p ∈ (lapseMon n tolSecs subT pre).expiry, ∀ e, p.2 = some e → t ≤ e) := by
+  have hl := (ok_parts n tolSecs subT tr h).2.1
+  exact ⟨fun pre post r s e htr hk hs ha hc he => lapse_sound n tolSecs subT tr pre post r s e hl htr hk hs ha hc he,
+    fun pre post t a b c d htr ha hc => lapse_sound_snapshot n tolSecs subT tr pre post t a b c d hl htr ha hc⟩
+
+/-- **judge_sound_yield**: a trace accepted by `ok` contains no `spin` marker -/
+theorem judge_sound_yield (n tolSecs subT : Nat) (tr : List Ev) (h : ok n tolSecs subT tr = true) :
+    ∀ t, Ev.spin t ∉ tr :=
+  yield_sound tr (ok_parts n tolSecs subT tr h).2.2.2.2
+
+/-- non-vacuity: the soundness theorems apply to a concrete accepted trace (a model run: two services subscribed,
+    unsubscribed); their conclusions for it: both services got their SUBSCRIBE, nothing is routed afterwards -/
+example :
+    let tr := (run genCfg 2 [] ⟨.ok, .sec 300, 0⟩ [Op.sub true, Op.unsub]).trace
+    ok 2 marginSecs genCfg.subTimeout tr = true
+    ∧ (∀ i, i < 2 → ∃ r ∈ [(⟨0, .sub, 0, none, .ok, .sec 300, 0, some 1⟩ : Req), ⟨0, .sub, 1, none, .ok, .sec 300, 0, some 2⟩],
+          r.kind = .sub ∧ r.svc = i) := by
+  intro tr
+  have hok : ok 2 marginSecs genCfg.subTimeout tr = true :=
+    judge_accepts_model 2 [] ⟨.ok, .sec 300, 0⟩ [Op.sub true, Op.unsub] (by decide)
+  refine ⟨hok, ?_⟩
+  have hs := judge_sound_all_or_nothing 2 marginSecs genCfg.subTimeout tr [] (tr.drop 5) 0 0 0 true true
+    [⟨0, .sub, 0, none, .ok, .sec 300, 0, some 1⟩, ⟨0, .sub, 1, none, .ok, .sec 300, 0, some 2⟩] none [1, 2] [1, 2] true true
+    hok (by decide)
+  exact (hs.1 rfl).1
 
 end Upnp.C12
